@@ -27,6 +27,8 @@ struct RouterSession : Session {
     std::map<int, double> params;
     std::map<int, bool> options;
     std::map<int, int> callbacks, cbSeen;
+    std::vector<std::map<int, std::vector<Pt>>> txnRoutes;      // per completed transaction: connector id -> displayRoute
+    std::vector<std::map<int, double>> txnCosts;                // per completed transaction: connector id -> cost
     std::vector<CbCtx *> cbctx;
     std::set<int> addedThisTxn;
     bool ortho = false, useTransactions = true, costOraclesApply = true, armedPinsGeometry = false;
